@@ -10,7 +10,7 @@
    the context's groups (From/To = the groups' replica ids, same names, no snapshot / reject /
    reject hint / context, node ids = the two ends of the stream), and frames respect the decoder's
    size limit. *)
-From ZV Require Import Common.Bytes Stream.Consts Stream.Proto Stream.Model Stream.ProofsProto Stream.Proofs Stream.Wf Stream.ProofsWf Stream.Examples.
+From ZV Require Import Common.Bytes Stream.Consts Stream.Proto Stream.Model Stream.ProofsProto Stream.Proofs Stream.Wf Stream.ProofsWf Stream.ProofsTotal Stream.Examples.
 Open Scope N_scope.
 
 (* (1) msgappv2: every well-formed sequence, of any number of interleaved raft groups, is read back
@@ -84,6 +84,21 @@ Theorem C16_v2_no_panic : forall local remote s,
   snd (v2_run local remote s) <> DPanic /\ snd (v2_run local remote s) <> DFuel.
 Proof. exact v2_run_no_panic. Qed.
 Print Assumptions C16_v2_no_panic.
+
+(* (6') stronger: on EVERY byte stream both reader loops end in a genuine Go outcome — never a panic and
+        never one of the model's own artefacts (exhausted fuel in the codec or in the protobuf layer), so
+        the fuel-bounded loops of the model are total where it matters *)
+Theorem C16_v2_reader_total : forall local remote s, ~ model_artefact (snd (v2_run local remote s)).
+Proof. exact v2_run_clean. Qed.
+Print Assumptions C16_v2_reader_total.
+
+Theorem C16_plain_reader_total : forall s, ~ model_artefact (snd (plain_run s)).
+Proof. exact plain_run_clean. Qed.
+Print Assumptions C16_plain_reader_total.
+
+Theorem C16_unmarshal_total : forall bs, msg_unmarshal bs <> Err PFuel.
+Proof. exact msg_unmarshal_nofuel. Qed.
+Print Assumptions C16_unmarshal_total.
 
 (* (7) underneath: protobuf and varint round trips, Size() = length of the marshalled bytes *)
 Theorem C16_message_roundtrip : forall m, msg_ok m = true -> msg_unmarshal (msg_marshal m) = Ok m.
